@@ -115,6 +115,11 @@ type Sim struct {
 	nodes       []*Node
 
 	Stalls []*StallRule
+	// OnPanic: a panic reached the top of an instrumented goroutine; true = it is
+	// the expected death of that goroutine's process, not a finding
+	OnPanic func(g *G, msg string) bool
+	// FSWriteFault: see FileWrite (helpers.go)
+	FSWriteFault func(g *G, path string, n int) (int, error)
 	// PreemptM > 0 turns the statement-level preemption points (Preempt) on:
 	// a goroutine is parked at its n-th point iff hash(PreemptSeed, key, n) % PreemptM == 0
 	PreemptM    uint64
@@ -307,6 +312,14 @@ func GoRecover(site string) {
 		panic(r)
 	}
 	msg := fmt.Sprintf("goroutine started at %s: panic: %v\n%s", site, r, debug.Stack())
+	if s.OnPanic != nil {
+		if g := s.self(); g != nil && s.OnPanic(g, msg) {
+			// an expected death of this simulated process (e.g. a fatal error
+			// after an injected disk fault): the process is gone, the run goes on
+			s.Kill(g.node)
+			return
+		}
+	}
 	s.mu.Lock()
 	s.SutPanics = append(s.SutPanics, msg)
 	s.mu.Unlock()
